@@ -3851,6 +3851,13 @@ impl SctpInner {
     }
 
     pub async fn send_dcep_open(&self, dc: &DataChannel) -> Result<()> {
+        // DCEP carries label and protocol lengths in 16 bits: a longer string
+        // would be announced with a truncated length and arrive as another one.
+        if dc.label.len() > u16::MAX as usize || dc.protocol.len() > u16::MAX as usize {
+            return Err(anyhow::anyhow!(
+                "data channel label/protocol too long for DCEP"
+            ));
+        }
         let channel_type = if dc.ordered {
             if dc.max_retransmits.is_some() {
                 0x01 // DATA_CHANNEL_PARTIAL_RELIABLE_REXMIT
